@@ -5,7 +5,7 @@ St == [time |-> time, net |-> net, data |-> data, addr |-> addr, pc |-> pc, sub 
        q |-> [i \in 1..Len(queue) |-> [p |-> queue[i].p, k |-> queue[i].k]],
        stalled |-> (stalled # None), disc |-> disc, tickPending |-> tickPending, todo |-> todo,
        cur |-> IF pc = "asked" THEN cur ELSE "-", cancelled |-> cancelled, ncall |-> ncall,
-       closeReturned |-> CloseReturned]
+       nwait |-> nwait]
 EmitEdge == PrintT(<<"VFEDGE", ToJson([s |-> St, op |-> op', t |-> St'])>>)
 EmitPrio == Prio /\ EmitEdge
 MCInit == Init /\ PrintT(<<"VFINIT", ToJson(St)>>)
